@@ -863,6 +863,12 @@ class Cluster(object):
                     'hist': [[int(p), c, int(v)] for (p, c, v) in (selfdata or {}).get('hist', [])],
                     'cluster': sorted(n.id for n in d[3] if n is not None),
                     'ver': int((selfdata or {}).get('_SyncObj__enabledCodeVersion', 0))}
+            # did the node that serialised it hold membership entries beyond the snapshot position at that moment?
+            try:
+                lg = getattr(seen_at.obj, '_SyncObj__raftLog')
+                info['ahead'] = any(e[1] > int(d[1][1]) and bytes(e[0][:1]) == b'\x02' for e in lg[:])
+            except Exception:
+                info['ahead'] = False
         except Exception:
             info = {'has': True, 'ok': False, 'size': len(raw)}
         info['_raw'] = raw
